@@ -38,6 +38,9 @@ def contracts(c, args, ctx):
 
 
 def contracts_(c, args, ctx):
+    if re.search(r"as WriteBytesExt>::write_u(8|16|32)(::<BigEndian>)?$", c) or re.search(r"as (std::io::)?Write>::write_all$", c):
+        from cases import c04 as _c04
+        if _c04.io_fails(d(args[0]), ctx): return core.Enum("Err", [_c04.IO_ERR])
     if re.search(r"as WriteBytesExt>::write_u8$", c):
         v = args[1]
         if not isinstance(v, int):
